@@ -196,8 +196,10 @@ def load_findings() -> dict:
     return json.load(open(p))
 
 
-def findings_for(prop: str) -> list[dict]:
-    return [f for f in load_findings().get("findings", []) if prop in f.get("properties", [f.get("property")])]
+def findings_for(prop: str, also: tuple = ()) -> list[dict]:
+    """findings recorded for `prop` (and for the properties whose oracle the check shares)"""
+    props = {prop, *also}
+    return [f for f in load_findings().get("findings", []) if props & set(f.get("properties", []))]
 
 
 # ------------------------------------------------------------------ verdict + evidence
